@@ -50,6 +50,7 @@ fn main() {
         "table" => streams::table(&mut rng, count, &mut emit),
         "options" => streams::options(&mut rng, count, &mut emit),
         "reorder" => streams::reorder(&mut rng, count, &mut emit),
+        "messages" => streams::messages(&mut rng, count, &mut emit),
         "dump" => streams::dump(&mut rng, count, &mut emit),
         "disasm" => streams::disasm(&mut rng, count, &mut emit),
         "trace" => streams::trace(&mut rng, count, &mut emit),
